@@ -591,14 +591,28 @@ fn failing_launch_among_live_children(ctx: &mut Ctx, rng: &mut Rng, i: u64) {
             plan::add(Rule { kind: k::EXECVE, scope: plan::SCOPE_CHILD, nth: 0, fd: -1, act: plan::ACT_FAIL, val: e as i64, prob: 1000 });
         }
     }
+    // the caller has exit-time work registered (atexit); in every other case that work cannot finish in a forked copy
+    let handler_blocks = (i / 5) % 2 == 1;
+    ilog::EXIT_HANDLER_BLOCKS.store(handler_blocks, std::sync::atomic::Ordering::SeqCst);
     let m = run::monitored(|| Popen::create(&[exe_b.clone().into_os_string()], cfg));
+    ilog::EXIT_HANDLER_BLOCKS.store(false, std::sync::atomic::Ordering::SeqCst);
     let evs = m.events();
     ctx.count("failing_launches_while_another_command_is_alive", 1);
+    ctx.count("failing_launches_in_a_caller_with_exit_handlers", 1);
     let result_text = format!("{:?}", m.result.as_ref().map(|r| r.as_ref().map(|_| "Popen").map_err(|e| e.to_string())));
     let child_events: Vec<String> = evs.iter().filter(|e| e.child != 0).map(ilog::fmt_ev).take(40).collect();
     let w = |extra: J| J::obj().set("failure", J::s(how)).set("result", J::s(&result_text)).set("child_side_events", J::arr_s(&child_events)).set("detail", extra);
     if ilog::child_escapes() > 0 {
         ctx.violation(&format!("C08/forked-copy-of-the-caller-lives-on/{}", how), "the child forked for the failing launch returned into the caller's code: a second copy of the caller, holding the parent's side of every pipe of every live command", w(J::Null));
+    }
+    if ilog::child_exit_handlers() > 0 {
+        ctx.violation(
+            &format!("C08/forked-child-runs-the-callers-exit-handlers/{}", how),
+            "the child forked for the failing launch left through exit(): a copy of the caller, holding the parent's side of every pipe of every live command, ran the caller's exit-time handlers (for as long as they take - for ever when one of them needs a lock whose owner was another thread)",
+            w(J::obj().set("handler_blocks_in_a_copy", J::Bool(handler_blocks)).set("certificate", m.cert.as_ref().map(run::cert_json).unwrap_or(J::Null))),
+        );
+    } else if let Some(c) = &m.cert {
+        ctx.violation(&format!("C08/failing-launch-never-returns/{}", how), "the failing launch did not return", w(run::cert_json(c)));
     }
     let naps: Vec<String> = evs.iter().filter(|e| e.child != 0 && e.kind == k::NANOSLEEP).map(ilog::fmt_ev).collect();
     if !naps.is_empty() {
@@ -610,6 +624,119 @@ fn failing_launch_among_live_children(ctx: &mut Ctx, rng: &mut Rng, i: u64) {
     inspect::kill_descendants();
     drop(pa);
     ctx.distinct(&format!("failing|{}|{}", how, i % 11));
+    run::end_case();
+}
+
+/// Commands whose stderr is merged into an stdout that is left alone (or the other way round) refer to the caller's own
+/// standard descriptor.  Such commands are started on threads that then finish (pool threads that retire, test threads);
+/// afterwards a command with all streams piped is alive, and another merged command is started: it has no pipe of its
+/// own at all, so no library pipe may be found anywhere in its descriptor table - the numbers 0..2 included.
+fn merged_commands_after_threads_retired(ctx: &mut Ctx, rng: &mut Rng, i: u64) {
+    run::begin_case();
+    let dir = ctx.scratch("c08m");
+    let save = spawn::StdSave::make();
+    let target = |fd: i32| std::fs::read_link(format!("/proc/self/fd/{}", fd)).map(|p| p.to_string_lossy().into_owned()).unwrap_or_default();
+    let std_before = [target(0), target(1), target(2)];
+    let which = i % 3; // 0: stderr merged, 1: stdout merged, 2: one thread each
+    let merged = |err_merged: bool| if err_merged { PopenConfig { stderr: Redirection::Merge, ..Default::default() } } else { PopenConfig { stdout: Redirection::Merge, ..Default::default() } };
+    let nthreads = if which == 2 { 2 } else { 1 };
+    let mut early = vec![];
+    for t in 0..nthreads {
+        let exe = spawn::report_exe(ctx, &dir, &format!("t{}", t), "x");
+        let err_merged = if which == 2 { t == 0 } else { which == 0 };
+        let exe2 = exe.clone();
+        let repeat = rng.range(1, 3);
+        let m = run::monitored(move || {
+            std::thread::spawn(move || {
+                ilog::set_subject(true);
+                let mut r = Ok(());
+                for _ in 0..repeat {
+                    r = Popen::create(&[exe2.clone().into_os_string()], if err_merged { PopenConfig { stderr: Redirection::Merge, ..Default::default() } } else { PopenConfig { stdout: Redirection::Merge, ..Default::default() } }).and_then(|mut p| p.wait().map(|_| ())).map_err(|e| e.to_string());
+                }
+                ilog::set_subject(false);
+                r
+            })
+            .join()
+        });
+        early.push(format!("{:?}", m.result.as_ref().map(|r| r.as_ref().map_err(|_| "thread panicked"))));
+        let _ = spawn::get_report(&exe, 3000);
+    }
+    ctx.count("threads_that_started_merged_commands_and_retired", nthreads as i64);
+    let std_after = [target(0), target(1), target(2)];
+    // a command with every stream piped stays alive ...
+    let exe_a = spawn::report_exe(ctx, &dir, "a", "h");
+    let ma = run::monitored(|| Popen::create(&[exe_a.clone().into_os_string()], PopenConfig { stdin: Redirection::Pipe, stdout: Redirection::Pipe, stderr: Redirection::Pipe, ..Default::default() }));
+    let evs_a = ma.events();
+    let mut pa = match ma.result {
+        Some(Ok(p)) => p,
+        other => {
+            ctx.inconclusive("piped command could not be started", J::s(&format!("{:?}", other.map(|r| r.map(|_| ()).map_err(|e| e.to_string())))));
+            drop(save);
+            run::end_case();
+            return;
+        }
+    };
+    let rep_a = spawn::get_report(&exe_a, 3000);
+    // ... while further merged commands are started
+    let lib: BTreeSet<u64> = spawn::lib_pipes(&evs_a).iter().map(|p| p.ino).collect();
+    let own_a: Vec<(Option<u64>, &str)> = vec![(ino_of(&pa.stdin), "stdin"), (ino_of(&pa.stdout), "stdout"), (ino_of(&pa.stderr), "stderr")];
+    let mut later = vec![];
+    for (j, err_merged) in [(0, true), (1, false)] {
+        let exe_b = spawn::report_exe(ctx, &dir, &format!("b{}", j), "h");
+        let mb = run::monitored(|| Popen::create(&[exe_b.clone().into_os_string()], merged(err_merged)));
+        match (mb.result, spawn::get_report(&exe_b, 3000)) {
+            (Some(Ok(p)), Some(rep)) => {
+                ctx.count("children_audited", 1);
+                ctx.count("children_audited.merged-after-retired-threads", 1);
+                let held: Vec<String> = rep
+                    .fds
+                    .iter()
+                    .filter_map(|f| f.pipe_ino().filter(|i| lib.contains(i)).map(|i| format!("child fd {} -> pipe:[{}] ({} end; {})", f.fd, i, if f.writable() { "write" } else { "read" }, own_a.iter().find(|(o, _)| *o == Some(i)).map(|(_, n)| format!("the {} pipe of the other command", n)).unwrap_or_else(|| "launch-status channel".into()))))
+                    .collect();
+                if !held.is_empty() {
+                    ctx.violation(
+                        &format!("C08/merged-after-retired-threads/{}", if err_merged { "stderr-merged" } else { "stdout-merged" }),
+                        "a command that has no pipe of its own (one output merged into the other, which is left alone) holds an end of another live command's pipe",
+                        J::obj()
+                            .set("held", J::arr_s(&held))
+                            .set("child_fds", spawn::report_json(&rep))
+                            .set("callers_standard_descriptors_before_the_threads", J::arr_s(&std_before.to_vec()))
+                            .set("callers_standard_descriptors_after_the_threads", J::arr_s(&std_after.to_vec()))
+                            .set("threads", J::arr_s(&early)),
+                    );
+                }
+                later.push(p);
+            }
+            (r, _) => ctx.inconclusive("merged command did not run or report", J::s(&format!("{:?}", r.map(|r| r.map(|_| ()).map_err(|e| e.to_string()))))),
+        }
+    }
+    // end-of-file for the piped command: once the parent closes its end nobody else may hold a write end
+    if let Some(ino) = ino_of(&pa.stdin) {
+        drop(pa.stdin.take());
+        ctx.count("eof_propagation_checks", 1);
+        let me = inspect::self_pid();
+        let mut holders = vec![];
+        for pid in std::iter::once(me).chain(inspect::descendants(me)) {
+            for f in inspect::fd_table(pid) {
+                if f.pipe_ino() == Some(ino) && f.can_write() {
+                    holders.push(format!("pid {} fd {} [{}]", pid, f.fd, inspect::proc_cmdline(pid)));
+                }
+            }
+        }
+        if !holders.is_empty() {
+            ctx.violation("C08/eof/stdin-write-end-still-held/merged-after-retired-threads", "after the parent closed its end of a command's stdin pipe, a write end is still open elsewhere: the command can never see end-of-file", J::arr_s(&holders));
+        }
+    }
+    let _ = rep_a;
+    for p in later.iter().chain(std::iter::once(&pa)) {
+        if let Some(pid) = p.pid() {
+            spawn::kill_now(pid as i32);
+        }
+    }
+    drop(later);
+    drop(pa);
+    drop(save);
+    ctx.distinct(&format!("merged-retired|{}|{}", which, i % 7));
     run::end_case();
 }
 
@@ -668,6 +795,8 @@ fn spawns_while_the_environment_is_being_written(ctx: &mut Ctx, rng: &mut Rng, i
 pub fn run(ctx: &mut Ctx) {
     let ne = ctx.n(48, 800);
     ctx.family("spawns-while-the-environment-is-written", ne, spawns_while_the_environment_is_being_written);
+    let nm = ctx.n(48, 900);
+    ctx.family("merged-commands-after-threads-retired", nm, merged_commands_after_threads_retired);
     let nf = ctx.n(100, 2000);
     ctx.family("failing-launch-among-live-children", nf, failing_launch_among_live_children);
     let nw = ctx.n(210, 4000);
